@@ -297,6 +297,9 @@ def _construct(policy, conf, **kw):
 
 def _run_impl_built(case, deep, conf, kw, policy, _parser):
     d = case['default']
+    if case.get('content_json'):
+        # remote checks post JSON instead of the default form encoding
+        conf.set_override('remote_content_type', 'application/json', group='oslo_policy')
     if 'enforce_scope_at_init' in case:
         # the option has another value while the enforcer is built than when it is asked
         conf.set_override('enforce_scope', bool(case['enforce_scope_at_init']), group='oslo_policy')
@@ -380,6 +383,14 @@ def _run_impl_built(case, deep, conf, kw, policy, _parser):
     if case['rule'][0] == 'name':
         rule = case['rule'][1]
     else:
+        # other check objects parsed from the same texts carry scope types of their own: what one object was given says
+        # nothing about another
+        for txt in (case['rule'][1], '@', '!', ''):
+            decoy = _parser.parse_rule(txt)
+            try:
+                decoy.scope_types = ['decoy_scope']
+            except Exception:   # noqa
+                pass
         rule = _parser.parse_rule(case['rule'][1])
         if case['rule'][2]:
             rule.scope_types = case['rule'][2]
@@ -573,5 +584,5 @@ def base_case(**kw):
 
 
 def describe(case):
-    d = {k: v for k, v in case.items() if not k.startswith('_') and k not in ('creds_as',)}
+    d = {k: v for k, v in case.items() if not k.startswith('_')}
     return d
